@@ -52,7 +52,7 @@ func handlerCalls(p *Program, fn *ssa.Function, execByName map[string]*ssa.Funct
 			w = 1
 			s.Names[cc.Method.Name()] = true
 		} else if callee := staticCallee(cc); callee != nil && inFramework(callee) {
-			if calleeName(cc) == nExecuteCmd && len(cc.Args) >= 3 {
+			if p.isDispatcherCall(cc) && len(cc.Args) >= 3 {
 				if name, ok := constString(cc.Args[2]); ok {
 					if ef := execByName[strings.ToUpper(name)]; ef != nil {
 						sub := handlerCalls(p, ef, execByName, memo, depth+1)
